@@ -1,0 +1,6 @@
+//go:build !verif
+// +build !verif
+
+package cache
+
+func verifYield(p int) {}
